@@ -67,6 +67,12 @@ func Main() {
 		fmt.Fprintln(os.Stderr, "unknown task", spec.Task)
 		os.Exit(2)
 	}
+	// generated code built with -debug_lexer/-debug_parser prints to os.Stdout: keep the driver's own channel apart
+	real := os.Stdout
+	if null, err := os.OpenFile(os.DevNull, os.O_WRONLY, 0); err == nil {
+		os.Stdout = null
+	}
+	outW = bufio.NewWriter(real)
 	defer outW.Flush()
 	for i, it := range spec.Items {
 		if i%n != shard {
